@@ -563,6 +563,28 @@ func runDefxEquals() defxResult {
 				}
 			}
 		}
+		// the task level: a task renamed (keeping its definition; also a task without any setting), added, removed
+		for ti, td := range []definition.TaskDef{{Script: []string{"s"}, AllowFailure: true}, {}} {
+			mk := func(names ...string) definition.PipelinesDef {
+				p := base
+				p.Tasks = map[string]definition.TaskDef{"keep": {Script: []string{"k"}}}
+				for _, n := range names {
+					p.Tasks[n] = td
+				}
+				return wrap(p)
+			}
+			res.Cases += 3
+			res.Distinct += 3
+			if x, y := mk("one"), mk("other"); x.Equals(y) || y.Equals(x) {
+				res.add(fmt.Sprintf("equals:task-renamed:%d", ti), fmt.Sprintf("a pipeline compares equal to the same pipeline with a task renamed (task definition %+v)", td))
+			}
+			if x, y := mk("one"), mk(); x.Equals(y) || y.Equals(x) {
+				res.add(fmt.Sprintf("equals:task-removed:%d", ti), fmt.Sprintf("a pipeline compares equal to the same pipeline without one task (task definition %+v)", td))
+			}
+			if x, y := mk("one"), mk("one", "two"); x.Equals(y) || y.Equals(x) {
+				res.add(fmt.Sprintf("equals:task-added:%d", ti), fmt.Sprintf("a pipeline compares equal to the same pipeline with one more task (task definition %+v)", td))
+			}
+		}
 		// the set level: pipeline added / removed / renamed
 		a := wrap(base)
 		b := wrap(base)
